@@ -49,7 +49,9 @@ RULE = ("boundary windows and programs first (zero-width, inverted, sub-millisec
         "programs of 2-12 statements over 1-3 populated buckets and random windows with reads of events and counts at any position "
         "(preferably of a bucket read before), built-ins and window assignments in between, returning the reads no later statement "
         "was given; sequences of queries on one Datastore object (mutating query, reading query over the same window under equal / "
-        "re-offset datetimes, an insert/delete/replace in between, another window and back); per window a program with counts "
+        "re-offset datetimes, the same bucket name and window on a second live storage instance (memory, sqlite), an insert/delete/"
+        "replace in between, another window and back); one bucket of 10 050 events read, annotated, re-read and read again by later "
+        "queries (sqlite; every back end in the thorough tier); per window a program with counts "
         "before/between/after two reads and an annotating built-in.  Every read of every program is compared at hand-out with the "
         "direct windowed read.  non-trivial = a program that read at least one bucket with events in the window and then applied a "
         "mutating built-in or raised midway")
@@ -155,14 +157,14 @@ def populate(storage, Event, rng, nb, world=None):
     return sizes
 
 
-def full_dump(storage):
+def full_dump(storage, by_id=True):
     out = []
     bs = storage.buckets()
     for b in sorted(bs):
         evs = storage.get_events(b, -1)
         rows = []
         for e in evs:
-            g = storage.get_event(b, e.id)
+            g = storage.get_event(b, e.id) if by_id else e       # (no lookup per id in the round with the large bucket)
             rows.append((e.id, us_of_dt(e.timestamp), us_of_td(e.duration), json.dumps(e.data, sort_keys=True),
                          None if g is None else (us_of_dt(g.timestamp), us_of_td(g.duration), json.dumps(g.data, sort_keys=True))))
         rows.sort(key=lambda r: (r[1], r[0]))
@@ -524,7 +526,8 @@ def run_backend(backend, tier, seed, repo, have_driver=True):
         cur["st"], cur["en"] = st, en
         text = ";\n".join(stmts) + ";"
         # (the dump taken after the previous query of the round is this query's "before", unless the harness wrote since)
-        before = cur.get("dump") or (full_dump_quiet(world, storage), quiet(lambda: facade_dump(ds)))
+        by_id = not cur.get("big")
+        before = cur.get("dump") or (full_dump_quiet(world, storage, by_id), quiet(lambda: facade_dump(ds)))
         status = "ok"
         if world is not None:
             world.spy_on = mirror
@@ -544,7 +547,7 @@ def run_backend(backend, tier, seed, repo, have_driver=True):
             cur["direct_memo"] = {}
             if world is not None:
                 world.spy_on = False
-        after = full_dump_quiet(world, storage), quiet(lambda: facade_dump(ds))
+        after = full_dump_quiet(world, storage, by_id), quiet(lambda: facade_dump(ds))
         cur["dump"] = after
         count(f"program:{status.split(':')[0]}")
         count("kind:" + (("fail:" + fail) if fail else "ok-program"))
@@ -578,7 +581,13 @@ def run_backend(backend, tier, seed, repo, have_driver=True):
             count("untouched-reads-returned", len(spec))
         if bad or dis:
             # self-contained: the buckets as they are stored (id, timestamp us, duration us, data), before == after or reported above
-            replay["stored_events"] = {row[0]: [list(r[:4]) for r in row[3]] for row in after[0]}
+            replay["stored_events"] = ({row[0]: [list(r[:4]) for r in row[3]] for row in after[0]} if by_id else
+                                       f"bucket b1: {BIG} events, event i at BASE + i ms (see populate_big)")
+        if not by_id:
+            for _, _, detail in bad:
+                for k in ("handed_out", "direct", "returned"):
+                    if isinstance(detail.get(k), list) and len(detail[k]) > 40:
+                        detail[k] = {"length": len(detail[k]), "first": detail[k][:5], "last": detail[k][-5:]}
         for sig, what, detail in bad[:2]:
             rep["failing"].append({"signature": sig, "description": f"[{backend}] {what}", "replay": dict(replay, **detail)})
         for what, detail in dis[:1]:
@@ -635,10 +644,32 @@ def run_backend(backend, tier, seed, repo, have_driver=True):
         for r in range(n_rounds):
             plan.append({"nb": [3, 1, 2][r % 3], "boundary": (r, 0, 1) if r < 3 else None, "random": n_random, "seq": n_seq,
                          "windows": n_windows, "bwin": r == 0})
+    # one round with a bucket of more than 10 000 events (not mirrored into the model): sqlite in the quick tier (that
+    # child has the time to spare), every back end in the thorough tier
+    if backend == "sqlite" or not quick:
+        plan.append({"nb": 1, "big": True})
     for rnd, rd in enumerate(plan):
         storage = fac()
         nb = rd["nb"]
         world = None
+        if rd.get("big"):
+            cur.update(storage=storage, world=None, history=[], dump=None, big=True)
+            sizes = populate_big(storage, Event)
+            bk = sorted(sizes)[0]
+            ds = Datastore(lambda testing=False, **kw: storage)
+            a, b = BASE - 1_000_000 + 999, BASE + 60_000_000
+            st, en = aware(a, 60), aware(b, 0)
+            stl, entl, spec = reread_tail(bk)
+            run_program(rnd, ds, sizes, "big-bucket",
+                        [f'n0 = query_bucket_eventcount("{bk}")', f'e1 = query_bucket("{bk}")', f"e1 = tag(e1, {TAGS})"] + stl
+                        + ["RETURN = {" + ", ".join(entl + ['"n0": n0']) + "}"], None, dict(spec, n0=("count", bk)), a, b, st, en, mirror=False)
+            a2, b2 = BASE + 2_000_500, BASE + 9_000_000       # a sub-window of some 7000 events, then the whole again
+            kind, stmts, fail, spec = reader_program(bk)
+            run_program(rnd, ds, sizes, "big-bucket", stmts, fail, spec, a2, b2, aware(a2, 0), aware(b2, 345), mirror=False)
+            run_program(rnd, ds, sizes, "big-bucket", stmts, fail, spec, a, b, st, en, mirror=False)
+            count("big-bucket-events", BIG)
+            cur["big"] = False
+            continue
         if backend == "memory":
             world = own.World(storage, Event, "memory")
             install_spy(world, storage, rep)
@@ -667,6 +698,10 @@ def run_backend(backend, tier, seed, repo, have_driver=True):
         # ---- sequences of queries in this process, same Datastore object: a mutating query, a reading query over the same
         # window (the same datetime objects, equal ones, the same instants under another UTC offset), a write to the bucket
         # in between, another window and back
+        other = second_instance(backend, fac, rnd) if rd["seq"] else None
+        if other is not None:
+            sizes_other = populate(other, Event, rng, nb, None)
+            ds_other = Datastore(lambda testing=False, **kw: other)
         for _ in range(rd["seq"]):
             full = [x for x in buckets if sizes[x]]
             bk = rng.choice(full) if full else rng.choice(buckets)
@@ -675,10 +710,26 @@ def run_backend(backend, tier, seed, repo, have_driver=True):
             oa, ob = rng.choice([0, 60, 345]), rng.choice([0, 120])
             st, en = aware(a, oa), aware(b, ob)
             variants = [(st, en), (aware(a, oa), aware(b, ob)), (aware(a, ob), aware(b, oa))]
-            steps = ["mutate", "read", rng.choice(["insert", "delete", "replace"]), "read", "mutate", "other-window", "read",
-                     rng.choice(["insert", "delete"]), "read"]
+            steps = ["mutate", "read", "other-instance", "read", rng.choice(["insert", "delete", "replace"]), "read", "mutate",
+                     "other-window", "read", rng.choice(["insert", "delete"]), "read"]
             for what in steps:
-                if what == "mutate":
+                if what == "other-instance":
+                    # the same bucket name and window on a second storage object that is alive at the same time
+                    if other is None:
+                        continue
+                    saved = {k: cur[k] for k in ("storage", "world", "dump")}
+                    cur.update(storage=other, world=None, dump=None)
+                    cur["history"].append("(the next two queries run on a second storage instance of the same class)")
+                    try:
+                        kind, stmts, fail, spec = mutator_program(rng, bk, buckets)
+                        run_program(rnd, ds_other, sizes_other, kind + "@second-instance", stmts, fail, spec, a, b, st, en, mirror=False)
+                        kind, stmts, fail, spec = reader_program(bk)
+                        run_program(rnd, ds_other, sizes_other, kind + "@second-instance", stmts, fail, spec, a, b, st, en, mirror=False)
+                    finally:
+                        cur.update(saved)
+                    cur["history"].append("(back on the first instance)")
+                    count("queries-on-a-second-instance", 2)
+                elif what == "mutate":
                     kind, stmts, fail, spec = mutator_program(rng, bk, buckets)
                     run_program(rnd, ds, sizes, kind, stmts, fail, spec, a, b, st, en)
                 elif what == "read":
@@ -743,6 +794,8 @@ def run_backend(backend, tier, seed, repo, have_driver=True):
                                                   "query_bucket": via, "direct": direct, "count_via": vcount, "count_direct": dcount,
                                                   "population_seed": seed, "round": rnd}})
             rep["cases"].append([[backend, rnd, "window", a, oa, b, ob, bk], bool(direct)])
+        if other is not None and backend == "sqlite":
+            other.conn.close()
         if world is not None and have_driver:
             w = {"wire": world.wire, "obs": world.impl_obs, "log": world.log, "lenient": sorted(world.lenient)}
             rep["disagreements"] += compare_worlds([w])
@@ -752,15 +805,37 @@ def run_backend(backend, tier, seed, repo, have_driver=True):
     return rep
 
 
-def full_dump_quiet(world, storage):
+def full_dump_quiet(world, storage, by_id=True):
     if world is not None:
         on = world.spy_on
         world.spy_on = False
         try:
-            return full_dump(storage)
+            return full_dump(storage, by_id)
         finally:
             world.spy_on = on
-    return full_dump(storage)
+    return full_dump(storage, by_id)
+
+
+BIG = 10_050          # more events than any plausible page / chunk constant (2000, 5000, 10 000)
+
+
+def populate_big(storage, Event):
+    name = own.bname(1)
+    storage.create_bucket(name, "currentwindow", "c", "host1", own.CREATED, None, None)
+    storage.insert_many(name, [Event(timestamp=dt(BASE + 1000 * i), duration=timedelta(microseconds=1000 * (i % 3)),
+                                     data={"app": APPS[i % 4], "title": TITLES[i % 5], "n": i}) for i in range(BIG)])
+    return {name: BIG}
+
+
+def second_instance(backend, fac, rnd):
+    """another storage object of the same class, alive at the same time as the round's own (same bucket names, other
+    events).  Peewee binds its models to one database per process: no second instance there."""
+    if backend == "memory":
+        return own.make_memory()
+    if backend == "sqlite":
+        from aw_datastore.storages import SqliteStorage
+        return SqliteStorage(testing=True, filepath=os.path.join(fac.dir, f"other{rnd}.db"))
+    return None
 
 
 def install_spy(world, storage, rep):
@@ -876,7 +951,7 @@ def main(argv=None):
     ck = Check("C12", argv)
     common.setup_impl_env()
     ck.run_witnesses(["w01"])
-    ck.prove(extra_targets=["Props/C01own.v"])
+    ck.prove(extra_targets=["Props/C01own.v", "Props/C12transforms.v"])
     have_driver = ck.driver()
 
     # static cross-check (named as such: not a proof)
